@@ -51,6 +51,9 @@ THEOREMS = [
     "C13_reader_total",
     "C13_reader_terminates",
     "C13_pairing",
+    "C13_link_visits_all",
+    "C13_link_live_skips",
+    "C13_link_probe",
 ]
 
 CORPUS_DIR = os.path.join(VERIF, "corpus", "C13")
@@ -350,7 +353,7 @@ def judge_abandoned(case, obs):
 
 def struct_cases(chk):
     rng = chk.rng("struct")
-    nbase = chk.pick(10, 60)
+    nbase = chk.pick(8, 60)
     cases = []
     for i in range(nbase):
         desc = G.gen_desc(rng, i)
@@ -384,6 +387,10 @@ def struct_cases(chk):
             if moved:
                 b, items = G.render(d)
                 cases.append({"kind": k1 + "+" + k2, "bundle": b, "items": items, "desc": i})
+    # reference defects in every order (deterministic enumeration, not sampled)
+    for kind, d in G.ref_order_descs(chk.thorough):
+        b, items = G.render(d)
+        cases.append({"kind": kind, "bundle": b, "items": items, "desc": -1})
     return cases
 
 
@@ -523,7 +530,14 @@ def misread_of(bundles_obs):
     dens = spec.denote_many(texts) if texts else []
     for i, den in zip(idx, dens):
         try:
-            out[i] = c13sem.misread(den, bundles_obs[i][1]["normal"]["sem"])
+            sem = bundles_obs[i][1]["normal"]["sem"]
+            dang = []
+            for k, w, n in c13sem.den_dangling(den):
+                # the problem holds the target although no card of that name is in the file as MCNP splits it: the
+                # disagreement is about a card's NAME (it was misread), not about the reference
+                held = ("tr%d" % n in sem["data"]) if k.endswith("transform") else ("m%d" % n in sem["data"]) if k.endswith("material") else False
+                dang.append(("data-card-name", w, (f"no card of that name for {k} {n}", "the problem holds one")) if held else ("dangling:" + k, w, (n, "accepted")))
+            out[i] = dang + c13sem.misread(den, sem)
         except (KeyError, TypeError, ValueError, IndexError) as e:
             raise leanio.MachineryError(f"c13sem.misread failed on {bundles_obs[i][0]['main']!r}: {e!r}")
     return out
@@ -563,6 +577,11 @@ def misread_verdicts(kind, diffs, text=""):
     if not diffs:
         return []
     fam, where, detail = diffs[0]
+    if fam.startswith("dangling:"):
+        return [(
+            {"mechanism": "error-policy", "corruption": kind, "class": "silently-accepted-dangling-reference", "reference": fam[9:]},
+            f"the file has a dangling reference ({fam[9:]} {detail[0]} at {where}, by the independent reader), yet read_input returns a problem without error and check mode gives no warning",
+        )]
     sig = {"mechanism": "error-policy", "corruption": kind, "class": "silently-misread", "what": fam}
     cause = misread_cause(fam, detail, text)
     if cause:
@@ -592,7 +611,7 @@ def judge_misread(chk, cases, observations):
         def fails(lines, fam=fam, case=case):
             b = {"main": "\n".join(lines) + "\n", "files": case["bundle"]["files"]}
             o = L.run_bundle(b)
-            if L.judge(b, o, "x"):
+            if any(v[0]["class"] != "returned-problem-not-writable" for v in L.judge(b, o, "x")):
                 return False
             dd = misread_of([(b, o)])[0]
             return bool(dd) and dd[0][0] == fam
@@ -681,11 +700,11 @@ def run(chk):
         verdicts += judge_abandoned(case, obs)
         if verdicts:
             report_violations(chk, case, verdicts)
+            if all(v[0]["class"] == "returned-problem-not-writable" for v in verdicts):
+                squiet.append((case, obs))  # why it is not writable may be a reference nobody checked
             continue  # the property itself is violated here: the rest is not compared
         squiet.append((case, obs))
-        if smodel is not None and out_of_model_scope(case["items"]):
-            chk.count("skipped:out-of-model-scope (duplicate M and duplicate MT of one number)")
-        elif smodel is not None:
+        if smodel is not None:
             chk.traces_validated += 1
             a = {m: project(obs[m]) for m in ("normal", "check")}
             b = {m: model_project(smodel[i][m]) for m in ("normal", "check")}
@@ -734,13 +753,14 @@ def run(chk):
         "families": sorted({e[0] for e in G.ZOO}), "variants": len(G.ZOO), "valid_bases": len(zclean), "cases": len(zcases),
         "mutations": sorted(SYSTEMATIC), "level": "exploration (judged by the oracle on the real code; not a proof)",
     }
-    tcases = corpus_cases() + zcases + token_cases(chk, bases)
+    rcases = [{"kind": k, "base": "ref-order", "pos": None, "bundle": {"main": t, "files": {}}} for k, t in G.ref_order_texts()]
+    tcases = corpus_cases() + rcases + zcases + token_cases(chk, bases)
     if not chk.thorough:
         # the quick tier enumerates every position too, but keeps a deterministic 60 % of the cases of the larger files
         rng = chk.rng("thin")
         keep = []
         for c in tcases:
-            if c["base"].startswith(("corpus/", "zoo:")) or len(c["bundle"]["main"]) < 700 or rng.random() < 0.45:
+            if c["base"].startswith(("corpus/", "zoo:", "ref-order")) or len(c["bundle"]["main"]) < 700 or rng.random() < 0.33:
                 keep.append(c)
         tcases = keep
     tres = pmap(judge_case, tcases, chunksize=16)
@@ -752,7 +772,7 @@ def run(chk):
             chk.count(f"outcome:{m}:" + (o["out"] if o["out"] != "raises" else o["exc"]["cls"]))
         if verdicts:
             report_violations(chk, case, verdicts)
-    quiet = [(c, o) for c, (o, v) in zip(tcases, tres) if not v]
+    quiet = [(c, o) for c, (o, v) in zip(tcases, tres) if all(x[0]["class"] == "returned-problem-not-writable" for x in v)]
     judge_misread(chk, [c for c, _ in quiet], [o for _, o in quiet])
     chk.units["exploration-token-corruptions"] = {"base_files": len(bases), "cases": len(tcases), "level": "exploration (judged by the oracle on the real code; not a proof)"}
     chk.exhaustive = False
